@@ -348,6 +348,10 @@ func TestC07(t *testing.T) {
 		defer r.Explore(mc.Config{Name: fmt.Sprintf("group-churn-slow-clients-d%d", cd), Serial: true, SplitDepth: 3, DevBound: 0,
 			Rule: fmt.Sprintf("start state {group G, vNode N1 under G, custom parent P}, instrumented clients that keep running for 3 s after Stop; all histories of %d operations over 8 (delete/undelete G, delete/undelete N1 under G, point update, unrelated node created = rescan trigger, a minute passes, N1 mirrored under the root); same oracles", cd)},
 			c07Body(t, cd, 0, true, churn, true))
+		kids := []int{9, 10, 11, 5, 4, 13}
+		defer r.Explore(mc.Config{Name: "child-churn-d3", Serial: true, SplitDepth: 2, DevBound: 0,
+			Rule: "start state {group G, vNode N1 under G, custom parent P}; all histories of 3 operations over 6 (add / remove / re-add a child of N1 — the re-add is a bare tombstone=0 edge point —, point update, delete / undelete N1, a minute passes); same oracles (the client's children must be the node's live children)"},
+			c07Body(t, 3, 0, true, kids, false))
 		r.Explore(mc.Config{Name: fmt.Sprintf("histories-d%d-dev%d", depth, dev), Serial: true, SplitDepth: 3, DevBound: dev, SelfCheckEvery: 97,
 			Rule: fmt.Sprintf("all histories of %d operations over 14 (create/delete/undelete a vNode under the root, under a group, under a custom parent type; mirror it under a second parent; delete/undelete the containing group; add/remove a child; point update; a minute passes), each operation followed by a run to quiescence; up to %d timing deviations per execution (manager started after the first operation; next operation issued without waiting for quiescence); then two rescan periods, and the oracles: never two clients per placement, running set = reference set = set started by a fresh manager, client config = store content, Stop returns", depth, dev)},
 			c07Body(t, depth, dev, false, nil, false))
@@ -360,6 +364,7 @@ func init() {
 	bodies["C07/histories-d3-dev1"] = func(t *testing.T) mc.Body { return c07Body(t, 3, 1, false, nil, false) }
 	bodies["C07/histories-d4-dev2"] = func(t *testing.T) mc.Body { return c07Body(t, 4, 2, false, nil, false) }
 	churn := []int{2, 3, 4, 5, 11, 12, 13, 0}
+	bodies["C07/child-churn-d3"] = func(t *testing.T) mc.Body { return c07Body(t, 3, 0, true, []int{9, 10, 11, 5, 4, 13}, false) }
 	bodies["C07/group-churn-slow-clients-d4"] = func(t *testing.T) mc.Body { return c07Body(t, 4, 0, true, churn, true) }
 	bodies["C07/group-churn-slow-clients-d5"] = func(t *testing.T) mc.Body { return c07Body(t, 5, 0, true, churn, true) }
 }
